@@ -756,6 +756,9 @@ func (it *interp) run() (taken []bool, pruned bool, err error) {
 		limit := 2
 		if !it.lazy {
 			limit = 1200 // concretely counted loops are unrolled
+			if it.m.symbolic[b] {
+				limit = 3 // a loop whose exit test depends on data: a few iterations characterise its paths
+			}
 		}
 		if it.visits[b] > limit {
 			return it.decs, true, nil
